@@ -46,13 +46,15 @@ fn make_world(spec: &str) -> Option<Box<dyn World>> {
             uses_time: false, dump: true, srv_opts: SrvOpts::default(),
         })));
     }
-    if spec != "c07-tx" {
-        return None;
-    }
+    let stride = match spec {
+        "c07-tx" => 1,
+        "c07-tx-sameshard" => 16,
+        _ => return None,
+    };
     Some(Box::new(MultiWorld::new(MultiSpec {
         prop: "C07".into(), nconns: 3, acts: acts(),
         probes: vec![sv(&["GET", "a"]), sv(&["GET", "s"]), sv(&["LRANGE", "l", "0", "-1"]), sv(&["DBSIZE"])],
-        uses_time: false, dump: true, srv_opts: SrvOpts::default(),
+        uses_time: false, dump: true, srv_opts: SrvOpts { conn_stride: stride, ..SrvOpts::default() },
     })))
 }
 
@@ -788,6 +790,7 @@ fn prop() -> DataProp {
     DataProp {
         id: "C07",
         specs: vec![SpecRun { spec: "c07-tx", depth_quick: 5, depth_thorough: 7, budget_quick_s: 25.0, budget_thorough_s: 1500.0 },
+            SpecRun { spec: "c07-tx-sameshard", depth_quick: 3, depth_thorough: 5, budget_quick_s: 15.0, budget_thorough_s: 900.0 },
             SpecRun { spec: "c07-case", depth_quick: 5, depth_thorough: 7, budget_quick_s: 10.0, budget_thorough_s: 600.0 }],
         make_world,
         assumptions: {
